@@ -37,6 +37,7 @@ class Runtime:
         self.type_calls = 0
         self.shared = None  # dict shared by the requests of a batch (one exception instance for all)
         self.override = None  # path -> raw value (C03: adversarial results)
+        self.type_override = None  # path -> what the harness type resolver returns there (C03)
         self.event_plans = []  # subscriptions: [(payload, plan)] in source order
         self.event_calls = []
         self.source_args = []
@@ -133,6 +134,10 @@ def make_type_resolver(key, as_object):
         if rt is not None:
             rt.type_calls += 1
             rt.loop.ev("type_resolve", rt.rid, key, abstract_type.name)
+        if rt is not None and rt.type_override:
+            p = tuple(info.path.as_list())
+            if p in rt.type_override:
+                return rt.type_override[p]
         tn = peek(result, key)
         if tn is None:
             return "Nope"
